@@ -327,13 +327,17 @@ class World(Cluster):
         return op
 
     def crash(self, i):
+        was = self.is_crashed(i)
         self.fault_events[i][0].invoke()
-        self.steps.append({"a": "X", "n": i})
+        if self.is_crashed(i) != was:
+            self.steps.append({"a": "X", "n": i})
         self._frame(0)
 
     def restart(self, i):
+        was = self.is_crashed(i)
         self.fault_events[i][1].invoke()
-        self.steps.append({"a": "R", "n": i})
+        if self.is_crashed(i) != was:
+            self.steps.append({"a": "R", "n": i})
         self._frame(0)
 
     def is_crashed(self, i):
